@@ -395,11 +395,11 @@ class Verdict:
         return 1
 
 
-def write_evidence(prop, tier, level, coverage, wall_s, violations, assumptions=()):
-    os.makedirs(os.path.join(VERIF, "evidence"), exist_ok=True)
+def write_evidence(prop, tier, level, coverage, wall_s, violations, assumptions=(), subdir="evidence"):
+    os.makedirs(os.path.join(VERIF, subdir), exist_ok=True)
     ev = dict(property_id=prop, tier=tier, seed=SEED, level=level, coverage=coverage,
               assumptions=list(assumptions), wall_s=round(wall_s, 2), violations=violations)
-    p = os.path.join(VERIF, "evidence", prop + ".json")
+    p = os.path.join(VERIF, subdir, prop + ".json")
     with open(p + ".tmp", "w") as fh:
         json.dump(ev, fh, indent=1)
     os.replace(p + ".tmp", p)
